@@ -30,6 +30,7 @@ structure Inv (s : State) : Prop where
   connId : ∀ k, s.conn = some k → k.id < s.nextId
   awaitId : ∀ c, awaited s = some c → c < s.nextId
   up : s.isUp = true → s.fsm = .established ∨ s.pc = .done
+  quietFresh : (s.fsm = .idle ∨ s.fsm = .active) → ∀ k, s.conn = some k → k.openSent = false
 
 theorem inv_init (cfg : Cfg) (rib : Bool) : Inv (init cfg rib) := by
   constructor <;> simp [init, awaited]
@@ -176,6 +177,7 @@ theorem Inv.congr {s s' : State} (h : Inv s) (hf : s'.fsm = s.fsm) (hp : s'.pc =
     · intro x hx; cases hx
     · exact h.awaitId
     · exact h.up
+    · intro _ x hx; cases hx
   · constructor <;> simp only [hf, hp, hn, hu, h2, haw]
     · exact h.backoffIdle
     · exact h.doneIdle
@@ -192,12 +194,14 @@ theorem Inv.congr {s s' : State} (h : Inv s) (hf : s'.fsm = s.fsm) (hp : s'.pc =
     · intro x hx; cases hx; rw [i1]; exact h.connId k h1
     · exact h.awaitId
     · exact h.up
+    · intro hq x hx; cases hx; rw [i2]; exact h.quietFresh hq k h1
 
 /-! ## the five shapes a state has between two steps -/
 
 theorem inv_idle {s : State} (hf : s.fsm = .idle) (hid : ∀ k, s.conn = some k → k.id < s.nextId)
     (haw : ∀ c, awaited s = some c → c < s.nextId ∧ ∀ k, s.conn = some k → k.id ≠ c)
-    (hpas : s.pc = .passiveWait → s.conn = none) (hup : s.isUp = true → s.pc = .done) : Inv s := by
+    (hpas : s.pc = .passiveWait → s.conn = none) (hup : s.isUp = true → s.pc = .done)
+    (hfresh : ∀ k, s.conn = some k → k.openSent = false) : Inv s := by
   have stale : ∀ c k, awaited s = some c → s.conn = some k → k.id = c → False :=
     fun c k h1 h2 h3 => (haw c h1).2 k h2 h3
   constructor
@@ -216,6 +220,7 @@ theorem inv_idle {s : State} (hf : s.fsm = .idle) (hid : ∀ k, s.conn = some k 
   · exact hid
   · intro c h; exact (haw c h).1
   · intro h; exact Or.inr (hup h)
+  · intro _; exact hfresh
 
 theorem inv_passive {s : State} (hf : s.fsm = .active) (hp : s.pc = .passiveWait) (hc : s.conn = none)
     (hup : s.isUp = false) : Inv s := by
